@@ -410,8 +410,10 @@ reg(Spec(
           "(k div 11) mod 15 "
           "(+ - * += -= linearCombination with the odd one out at a random "
           "position, ScalarProduct, BilinearForm{X,Dx}, integrate<3> "
-          "(floating types), SplineOperator{v}*s, LinearForm{Dx*V}(s), "
-          "BilinearForm{X+V}(a,a2), Support union / intersection), orders "
+          "(floating types), E(V)*s, LinearForm{Dx*E(V)}(s), "
+          "BilinearForm{X+E(V)} in either slot, where E(V) wraps the spline "
+          "factor V in one of ten expression shapes (V, c*V, V*c, V/c, -V, "
+          "c*(X*V), Dx+c*V, V+c, c-V, (V*Dx)/2), Support union / intersection), orders "
           "0..2 x 0..2, 12 relative placements of the two windows including "
           "interval-free arguments; every 16th case: generator with a supplied "
           "grid; every 16th case: a long-lived SplineOperator whose previous "
@@ -426,6 +428,9 @@ reg(Spec(
           "middle of histories. Non-trivial: a call that must be refused; "
           "distinct by full input."),
     required=["diff:" + d for d in DIFFS] + ["entry:" + e for e in ENTRIES] +
+             ["factor-shape:" + x for x in
+              ["V", "c*V", "V*c", "V/c", "-V", "c*(X*V)", "Dx+c*V", "V+c",
+               "c-V", "(V*Dx)/2"]] +
              ["refused", "twin-agrees", "generator-refused",
               "c08:refused-in-history", "persistent-operator:refused",
               "long-lived-spline:checked",
